@@ -189,6 +189,27 @@ mut("R-C06-magic-index-helper-off-by-one", "C06", "scheme", ("src/board/piece/ro
 mut("R-C02-finish-move-push-conditional", "C02", "stack", (B, "        self.history.push(new_move);\n    }", "        if !new_move.is_castles {\n            self.history.push(new_move);\n        }\n    }"), base=R + "R2-refactor4.diff")
 mut("R-C09-announce-helper-skips-when-none", "C09", "one-site", (S, "        self.log(format!(\"bestmove {best_move}\").as_str());\n    }", "        if self.info.best_move.is_some() {\n            self.log(format!(\"bestmove {best_move}\").as_str());\n        }\n    }"), base=R + "R1-refactor4.diff")
 
+# ... on the third wave of refactorings (data-driven castling bookkeeping, iterator pipelines, combinators)
+mut("R-C03-lost-by-capture-slice-wrong-kind", "C03", "revocation-table",
+    (B, "            (Some(Kind::Rook(Color::Black)), Square { rank: 7, file: 0 }) => {\n                &[CastlingKind::BlackQueenside]", "            (Some(Kind::Rook(Color::Black)), Square { rank: 7, file: 0 }) => {\n                &[CastlingKind::BlackKingside]"), base=R + "R7-refactor6.diff")
+mut("R-C04-revocation-loop-toggles-before-test", "C04", "castle-pair",
+    (B, "            if *status == CastlingStatus::Available {\n                self.zkey.change_castling_rights(kind);\n                *status = CastlingStatus::Unavailable;", "            self.zkey.change_castling_rights(kind);\n            if *status == CastlingStatus::Available {\n                *status = CastlingStatus::Unavailable;"), base=R + "R7-refactor6.diff")
+mut("R-C02-ep-filter-map-reads-start-file", "C02", "ep-restore",
+    (B, "            .map(|previous| previous.dest.file);", "            .map(|previous| previous.start.file);"), base=R + "R7-refactor6.diff")
+mut("R-C03-rook-corner-lookup-a8-gives-kingside", "C03", "revocation-table",
+    (B, "            (Kind::Rook(Color::Black), Square { rank: 7, file: 0 }) => {\n                Some(CastlingKind::BlackQueenside)", "            (Kind::Rook(Color::Black), Square { rank: 7, file: 0 }) => {\n                Some(CastlingKind::BlackKingside)"), base=R + "R7-refactor2.diff")
+mut("R-C04-restore-keys-loop-skips-black-queenside", "C04", "castle-revert",
+    (B, "            CastlingKind::BlackKingside,\n            CastlingKind::BlackQueenside,\n        ] {\n            if Self::castling_right(undone, kind)", "            CastlingKind::BlackKingside,\n        ] {\n            if Self::castling_right(undone, kind)"), base=R + "R7-refactor2.diff")
+mut("R-C01-attacked-squares-fold-filters-own-pieces", "C01", "check-mirror",
+    (B, "            .filter(|&square| attacking_pieces & (1 << square) != Bitboard::new(0))", "            .filter(|&square| attacking_pieces & (1 << square) == Bitboard::new(0))"), base=R + "R7-refactor3.diff")
+mut("R-C05-castling-kind-discriminants-collide", "C05", "injective",
+    ("src/board/ply/castling.rs", "        kind as Self\n", "        (kind as Self) & 2\n"), base=R + "R7-refactor5.diff")
+
+mut("C11-ply-counter-not-restored-in-quiescence", "C11", "ply-counter",
+    (S, "                .saturating_neg();\n            self.info.depth -= 1;\n\n            self.board.unmake_move();", "                .saturating_neg();\n\n            self.board.unmake_move();"))
+mut("C11-ply-counter-raised-after-seldepth-only-under-pvs", "C11", "ply-counter",
+    (S, "            let mut score;\n            self.info.depth += 1;\n            self.info.seldepth = self.info.seldepth.max(self.info.depth);\n            if pvs {", "            let mut score;\n            self.info.seldepth = self.info.seldepth.max(self.info.depth);\n            if pvs {\n                self.info.depth += 1;"))
+
 
 if __name__ == "__main__":
     missing = []
